@@ -4,6 +4,11 @@ import json, subprocess
 
 # id: (level, engine, technique, level text, level note, design ref)
 CHECKS = {
+ "C09": ("fault_enumeration", "faults",
+         "exhaustive enumeration of adversarial definitions (grammar product over every built-in name and gamut key, single-character mutations at every offset) and of all 4-tuples over a special-value alphabet, executed in supervised worker processes",
+         "Grammar: for every built-in operator and every key of its gamut (hook H1) the key is set to each of 36 adversarial spellings (empty, signed zero, overflowing exponents, NaN, inf, malformed sexagesimal, multi-byte, dangling $ and parentheses, commas, huge integers, unknown ellipsoids ...) with the other required keys valid, all key pairs over 6 values for gamuts up to 10 keys, each name in macro / pipeline / PROJ / modifier-only positions, plus ~170 degenerate texts, through both Minimal and Plain; byte level: every single deletion, duplication and replacement by 17 characters (separators, sigils, newline, subscript zero, degree sign, NUL) at every character offset of 64 definitions; coordinates: ~100 instantiable definitions x both directions x all 13^4 = 28561 tuples over NaN, infinities, signed zeros, subnormal, +-1e308, pi/2, -pi, +-1, 0.1; functions: the public angular, tokenizer, parse_proj, Ellipsoid::named and ellipsoid trait methods over string and value alphabets (incl. degenerate ellipsoids). Verdict per case from the worker: answer with count <= len, caught panic, death by signal, or watchdog expiry.",
+         "Single mutations only at the byte level. Workers: 2 MiB stack, 4 GiB address space, 10 s watchdog (60 s solitary re-run for the first confirmed hangs).",
+         "DESIGN.md §3 C09"),
  "C15": ("fault_enumeration", "faults",
          "exhaustive enumeration of corruption operators (every truncation length, every header bit flip, every header field x adversarial encodings, text token edits) over shipped and generated grid files, decoded and queried by the real readers in supervised worker processes",
          "Well-formed: the shipped .gsa twins agree with the library's decode of 5458.gsb / 5458_with_subgrid.gsb at every interior node; generated NTv2 trees decode to the nodes written in both byte orders and file orders (Gravsoft geometries/layouts: see C08). Damaged: for each of 9 shipped files (the 2.8 MB deformation grid on a reduced plan in the quick tier) and 7 generated ones (incl. two adversarial NTv2 trees: parent cycle through a repeated name, orphans/duplicates): every truncation length up to 4096 (thorough 65536) bytes and strided beyond, every single-bit flip in the first 1100 (NTv2) / 200 (Gravsoft) bytes (thorough 4096 / 600), every 16-byte header record x 14 adversarial encodings x both byte orders, deletion / duplication / 7 replacements of Gravsoft tokens; every decode that yields a grid is queried at 214 points (nodes, borders, margins, far outside, NaN, infinities, huge) x 3 margins. Verdict per case from the worker: Err / grid queried safely / panic / death by signal / no answer within the watchdog.",
@@ -135,8 +140,8 @@ def main():
             {"name": "space", "path": "/verif/mc/src/engine.rs", "kind_free_text": "exhaustive mixed-radix product enumeration on 16 threads (par_range/decode)", "serves_properties": ["C01", "C05", "C06", "C07", "C08", "C10", "C11", "C13", "C14", "C16", "C19"]},
             {"name": "explore", "path": "/verif/mc/src/props", "kind_free_text": "explicit-state / program-tree exploration of the real API against reference models written in Rust", "serves_properties": ["C02", "C03", "C04", "C12", "C17", "C18"]},
             {"name": "sched", "path": "/verif/mc/src/props/c18.rs", "kind_free_text": "shuttle DfsScheduler over real threads sharing Plain contexts and the process-wide grid cache; yield points from hook H4", "serves_properties": ["C18"]},
-            {"name": "faults", "path": "/verif/mc/src/props/c15.rs", "kind_free_text": "exhaustive corruption operators over byte buffers (truncate, bit flip, field overwrite, token edit) applied inside worker processes", "serves_properties": ["C15"]},
-            {"name": "workers", "path": "/verif/mc/src/engine.rs", "kind_free_text": "worker subprocesses (2 MiB stack, 4 GiB address space, watchdog) for hang / overflow / abort detection", "serves_properties": ["C04", "C15"]},
+            {"name": "faults", "path": "/verif/mc/src/props/c15.rs", "kind_free_text": "exhaustive corruption operators over byte buffers (truncate, bit flip, field overwrite, token edit) applied inside worker processes", "serves_properties": ["C09", "C15"]},
+            {"name": "workers", "path": "/verif/mc/src/engine.rs", "kind_free_text": "worker subprocesses (2 MiB stack, 4 GiB address space, watchdog) for hang / overflow / abort detection", "serves_properties": ["C04", "C09", "C15"]},
         ],
         "checks": checks,
         "not_applicable": na,
